@@ -138,7 +138,7 @@ def run() -> int:
     maxlen = 3 if t == "quick" else 4
     mod = f"""---- MODULE MC_GheObject ----
 EXTENDS GheObject
-c_Heights == {{"h1", "h2"}}
+c_Heights == {{"h1", "h2", "h3"}}
 c_Fixed == {tla(FIXED_OBJ)}
 ====
 """
@@ -154,7 +154,7 @@ c_Fixed == {tla(FIXED_OBJ)}
     res = run_tlc("MC_GheObject", cfg, extra_modules={"MC_GheObject.tla": mod}, workers=1)
     require_tlc_ok(res, "GheObject gen")
     ohist = res.prints
-    cap = 140 if t == "quick" else 1500
+    cap = 220 if t == "quick" else 2500
     if len(ohist) > cap:
         ohist = rnd.sample(ohist, cap)
     for h, r in zip(ohist, parallel_map(_exec_object_history, ohist)):
@@ -239,7 +239,7 @@ def _mk_ghe():
     fluid = GHEFluid("water", 0.0, 20.0)
     pipe = Pipe(Pipe.place_pipes(0.01856, 0.02108, 1), 0.01702, 0.02108, 0.01856, 1e-6, 0.4, 1542000.0)
     grout, soil = Grout(1.0, 3901000.0), Soil(2.0, 2343493.0, 18.3)
-    bore = GHEBorehole(96.0, 2.0, 0.07, 0.0, 0.0)
+    bore = GHEBorehole(70.0, 2.0, 0.07, 0.0, 0.0)     # nominal height below the 49-hour clamp of the short-time-step model
     coords = rectangle(2, 2, 5.0, 5.0)
     sp = SimulationParameters(1, 12, 35.0, 5.0, 135.0, 60.0)
     m_flow = 0.3 / 1000.0 * fluid.rho
@@ -247,7 +247,15 @@ def _mk_ghe():
     return GHE(0.3 * 4, 5.0, BHPipeType.SINGLEUTUBE, fluid, bore, pipe, grout, soil, gfn, sp, profile(9000.0))
 
 
-HEIGHTS = {"h1": 80.0, "h2": 121.5}
+# two heights below the 49-hour clamp of the short-time-step model (H < ~86 m for this soil) and one above
+HEIGHTS = {"h1": 80.0, "h2": 121.5, "h3": 62.0}
+
+
+def _fresh_sts(ghe):
+    """Give the reference object a brand-new short-time-step model, so that nothing an earlier call may have left in it can be re-used."""
+    from ghedesigner.radial_numerical_borehole import RadialNumericalBH  # noqa: PLC0415
+
+    ghe.radial_numerical = RadialNumericalBH(ghe.bhe.to_single())
 
 
 def _exec_object_history(item):
@@ -284,6 +292,7 @@ def _exec_object_history(item):
             if isinstance(hcell, str):
                 hsaw = HEIGHTS.get(hcell)   # "nominal" -> None: keep the constructor's height
             if last == "size_hybrid":
+                _fresh_sts(ref)
                 ref.size(TimestepType.HYBRID)
             else:
                 if hsaw is not None:
@@ -294,6 +303,7 @@ def _exec_object_history(item):
                         r2.compute_g_functions()
                     r2.size(TimestepType.HYBRID)
                     ref.bhe.b.H = r2.bhe.b.H
+                _fresh_sts(ref)
                 ref.simulate(TimestepType.HOURLY if last == "sim_hourly" else TimestepType.HYBRID)
             want = (float(ref.bhe.b.H).hex(), fhash(ref.hp_eft), len(ref.times))
             if out != want:
